@@ -63,9 +63,16 @@ inline void on_signal(int sig) {
     ssize_t r = write(1, s.data(), s.size()); (void)r;
     _exit(4);
 }
+// an alternate signal stack for the calling thread, so that a stack overflow can still be reported
+inline void install_altstack() {
+    static thread_local char* mem = nullptr;
+    if (!mem) mem = (char*)malloc(1 << 16);
+    stack_t ss; ss.ss_sp = mem; ss.ss_size = 1 << 16; ss.ss_flags = 0; sigaltstack(&ss, nullptr);
+}
 inline void install_handlers() {
     std::set_terminate(on_terminate);
-    for (int sg : {SIGSEGV, SIGABRT, SIGFPE, SIGBUS, SIGILL}) signal(sg, on_signal);
+    install_altstack();
+    for (int sg : {SIGSEGV, SIGABRT, SIGFPE, SIGBUS, SIGILL}) { struct sigaction sa; memset(&sa, 0, sizeof sa); sa.sa_handler = on_signal; sa.sa_flags = SA_ONSTACK; sigemptyset(&sa.sa_mask); sigaction(sg, &sa, nullptr); }
 }
 
 // calls f(line_index, line) for each case of this shard
